@@ -29,8 +29,10 @@ PROPS = {
                          'composition "originator stack -> bus -> responder stack" end to end; covered through the per-frame contracts of both '
                          'roles, the shared frame layout specs and the frame conditions (a handler touches only the session of its own key)'],
         'bounded': ['numpy chunking (np.array/np.split/np.reshape/tolist) is an ASSUMED contract (pyvc/numpy_model.py); bounded native '
-                    'cross-check bounded/fd_roundtrip.py: two real J1939_22 objects back to back, every length 61..4000 (thorough tier), '
-                    'windows 1/3/255 and BAM - never counted as proved'],
+                    'cross-check bounded/fd_roundtrip.py: two real J1939_22 objects back to back, every payload length 61..400 (quick) / '
+                    '61..4000 and 4000..20000 step 61 (thorough), windows 1/3/255 and BAM - BOUNDED, never counted as proved'],
+        'bounded_cmds': {'quick': [['bounded/fd_roundtrip.py', '61', '400', '1']],
+                         'thorough': [['bounded/fd_roundtrip.py', '61', '4000', '1'], ['bounded/fd_roundtrip.py', '4000', '20000', '61']]},
         'design_ref': '6 (C01/C02), appendix A',
     },
     'C11': {
@@ -129,6 +131,45 @@ PROPS = {
         'out_of_scope': ['delivery of the payload over a bus by either link layer (C01/C02/C11 by composition)',
                          'that the timer fires each cycle (C12) - composition of the registration with the timer pass'],
         'design_ref': '6 (C16)',
+    },
+    'C17': {
+        'explanation': 'DM14 memory access, per function: value <-> octet conversion of the client (every object of size 1/2/4/8, little '
+                       'endian, two-s complement when signed, in order; encode then decode gives the value back), DM14 / DM16 frame layouts '
+                       'of the client, DM16 of the server (count octet, exactly the octets the application supplied, 0xFF fill), data taken '
+                       'from a DM16 on both sides (exactly data[1:1+count]), server-side extraction of command / pointer / pointer type / '
+                       'object count / access level from the first DM14, DM15 proceed / operation-complete layouts, closing DM14 returns '
+                       'the server to idle, facade read/write hand exactly the caller-s arguments to the query and are idle afterwards.',
+        'out_of_scope': ['whole transactions over two stacks and the J1939-21 transport (composition of these contracts with C01); '
+                         'hand-over timing between DM15 proceed, DM16 data and DM15 operation-complete (observed in the design round, not '
+                         're-confirmed: an 8-octet read lets the completion DM15 overtake the multi-packet DM16)',
+                         'listener life cycle of the DM14 client (subscribe/unsubscribe of _parse_dm15/_parse_dm16 across transactions)',
+                         'Dm14Query.read/write (blocking queue waits) and DM14Server.respond/_wait_for_data are not under contract'],
+        'design_ref': '6 (C17)',
+    },
+    'C18': {
+        'explanation': 'key verification (accepted exactly when key == algorithm(seed)), seeds never 0x0000 / 0xFFFF, the facade consults the '
+                       'proceed callback and notifies the application only while the key returned matches the seed sent (call-out '
+                       'assertion on every path of _listen_for_dm14), seed-first / key-frame transitions of the server, error DM15 '
+                       'layout (status operation failed, 24-bit error indicator little endian, EDCP extension), client side: an error / '
+                       'busy DM15 ends the blocking wait and queues exactly one exception when it carries an error indicator, recovery: '
+                       'reset_query returns the server to its initial state, the facade is IDLE again on every exit of read/write '
+                       '(also exceptional ones).',
+        'out_of_scope': ['the text of the exception (string formatting is uninterpreted)', 'the timeout of the blocking wait (queue.get)',
+                         'histories of up to 6 operations on live objects (each step is covered by the per-call contracts; their '
+                         'composition is not mechanised)'],
+        'design_ref': '6 (C18)',
+    },
+    'C19': {
+        'explanation': 'the guard in front of the server state machine: a DM14 from another source address, or for another pointer, or while '
+                       'the application reports busy, is answered with exactly one DM15 operation failed (error 2 = busy unless the '
+                       'application set one, EDCP 7) addressed to the requester that sent it, and leaves state, requester, pointer, '
+                       'length and data of the running transaction untouched; the DM15 builder addresses its frame to the address '
+                       'given; the facade answers busy and calls no application callback while it is itself querying, and ignores '
+                       'requests while the application owes an answer.',
+        'out_of_scope': ['injection after every bus frame of every transaction shape (whole histories)',
+                         'a request for another pointer after a transaction has completed is also answered busy (the pointer is not '
+                         'cleared by the closing DM14) - outside the property-s quantifier, noted in DESIGN'],
+        'design_ref': '6 (C19)',
     },
     'C12': {
         'explanation': 'add_timer (one new registration due delta after the call, others untouched, thread woken), remove_timer and '
